@@ -228,7 +228,11 @@ def compiled_vs(cols, exp, text, pred, rules=None, flags=None, ordered=False,
             'compiler refused a valid program: %s\n%s\n--- predicate %s\n%s' % (
                 type(e).__name__, msg, pred, text)
     except Exception as e:
-        return 'fail', 'internal:' + drive.exc_frame(e), \
+        b = 'internal:' + drive.exc_frame(e)
+        if type(e).__module__ == 'sqlite3':
+            # the innermost frame is our own driver: name the engine's complaint instead
+            b = 'internal:%s:%s' % (type(e).__name__, sqlite_msg_class(str(e)))
+        return 'fail', b, \
             '%s\n--- predicate %s\n%s' % (traceback.format_exc()[-1500:], pred, text)
     info['sql'] = sql
     if cols_any_order and hdr != cols and sorted(hdr) == sorted(cols) and \
@@ -291,6 +295,19 @@ def attribute_to_quirks(prog, pred, rows, ordered):
     return ('?',) if ambiguous else ()
 
 
+def sqlite_msg_class(msg):
+    import re
+    m = msg.strip().split('\n')[0]
+    m = re.sub(r'"[^"]*"|\'[^\']*\'', 'Q', m)
+    for head in ('no such table', 'no such column', 'no such function', 'malformed JSON',
+                 'near', 'ambiguous column name', 'wrong number of arguments',
+                 'user-defined aggregate', 'user-defined function', 'GROUP BY term',
+                 'ORDER BY term', 'misuse of aggregate', 'incomplete input'):
+        if m.startswith(head) or head in m:
+            return head.replace(' ', '_')
+    return re.sub(r'[^A-Za-z ]+', '', m)[:40].strip().replace(' ', '_')
+
+
 def first_line(e):
     s = str(e)
     for attr in ('message',):
@@ -314,7 +331,8 @@ def msg_class(msg):
     return m[:80]
 
 
-STABLE_PHRASES = (('Signature differs for bodies', 'signature_differs_for_bodies'),)
+STABLE_PHRASES = (('Signature differs for bodies', 'signature_differs_for_bodies'),
+                  ('circular dependency of', 'circular_dependency_of_in_calls'))
 
 KEEP = {'circular', 'dependency', 'in', 'calls', 'found', 'no', 'way', 'to', 'assign',
         'variables', 'unmatched', 'could', 'not', 'parse', 'predicate', 'distinct',
@@ -328,7 +346,29 @@ def minimise_program(case, bucket, check_case, keep_pred=None):
     same bucket still fails."""
     prog = model.prog_from_json(case['prog'])
 
+    def wellformed(p2):
+        # never minimise into a program that calls a predicate without rules: the
+        # failure would become "no such table" under the same coarse bucket
+        defined = set(r['pred'] for r in p2['rules']) | set(p2.get('inj', {}))
+        for r in p2['rules']:
+            if not deps_of_rule(r) <= defined:
+                return False
+        for name, d in p2.get('inj', {}).items():
+            try:
+                body = d[2]
+            except Exception:
+                continue
+            fake = {'pred': name, 'head': [], 'body': body, 'value': None}
+            try:
+                if not deps_of_rule(fake) <= defined:
+                    return False
+            except Exception:
+                pass
+        return True
+
     def fails(p2):
+        if not wellformed(p2):
+            return False
         c2 = dict(case)
         c2['prog'] = model.prog_to_json(p2)
         return any(b == bucket for b, d in check_case(c2))
